@@ -1225,7 +1225,7 @@ pub fn c13_profiles(quick: bool) -> Vec<(Profile, u64)> {
         check: false,
     };
     let cfgs = if quick { vec![CFG0] } else { vec![CFG0, CFG_CACHE, CFG_ONE_REGION] };
-    let depth = if quick { 2 } else { 4 };
+    let depth = if quick { 3 } else { 4 };
     let ff = f.clone();
     // multi-region, fragmented seeds: big values interleaved with small ones, half removed
     let mut seeds = vec![];
@@ -1420,9 +1420,9 @@ pub fn c10_profiles(quick: bool) -> Vec<(Profile, u64)> {
     if quick {
         add(shrink(c04_profiles(true), 1), 2);
         add(shrink(c09_profiles(true), 1), 2);
-        add(shrink(c17_profiles(true), 1), 1);
+        add(c17_profiles(true), 1);
         add(shrink(c18_profiles(true), 1), 1);
-        add(shrink(c07_profiles(true), 1), 1);
+        add(c07_profiles(true), 1);
     } else {
         add(c04_profiles(true), 13);
         add(c09_profiles(true), 8);
@@ -1590,7 +1590,7 @@ pub fn c08_histories(quick: bool) -> Vec<History> {
             });
         }
         let pairs: Vec<(&str, &str)> = if quick {
-            vec![("Sn", "S1"), ("S1", "F1")]
+            vec![("Sn", "S1"), ("S1", "F1"), ("Sn", "Sq"), ("Sq", "Sn"), ("S2", "Sn"), ("F1", "Sn"), ("Sn", "C"), ("Pc", "S1")]
         } else {
             let core = ["S1", "Sn", "Sq", "F1", "G1", "C"];
             let mut v = vec![];
